@@ -166,7 +166,7 @@ def text_agrees(argv, bd, category, subcategory, unknown_desc, c, ctx, what):
     for fmt in ([], ['--format', 'markdown']):
         r = cli.run(['explain'] + fmt + argv, cwd=bd.root)
         out = r.out + r.err
-        if 'Traceback' in out or r.code != 0:
+        if obs.crashed(out) or r.code != 0:
             raise Violation(f'`tally explain {" ".join(fmt + argv[:-1])}` failed (exit {r.code}) where the JSON format succeeds:\n{out[-900:]}{ctx}', c, 'explain-text-crash')
         # the layout of the text renderings is not specified: the reported category and subcategory only have to appear in them
         if unknown_desc:
@@ -234,7 +234,7 @@ def check(c, stats: Stats):
                 raise Violation(f'discover lists {got}\nbut the transactions `up` leaves Unknown are {exp}{ctx}', c, 'discover-listing')
             rt = cli.run(['discover', '--limit', '0', bd.config], cwd=bd.root)
             mt = re.search(r'Total unknown: (\d+) transactions', rt.out)
-            if 'Traceback' in rt.out + rt.err or rt.code != 0:
+            if obs.crashed(rt.out + rt.err) or rt.code != 0:
                 raise Violation(f'`tally discover` (text) failed where the JSON format succeeds (exit {rt.code}):\n{(rt.out + rt.err)[-800:]}{ctx}', c, 'discover-text-crash')
             if mt and int(mt.group(1)) != len(unknown):
                 raise Violation(f'`tally discover` (text) counts {mt.group(1)} unknown transactions, `up` leaves {len(unknown)} Unknown{ctx}', c, 'discover-text')
